@@ -61,7 +61,12 @@ func vhPrefix() (*net.IPNet, int) {
 	ones := vr.Int(0, 32)
 	ip := vhSymIP4()
 	m := net.CIDRMask(ones, 32)
-	return &net.IPNet{IP: ip.Mask(m), Mask: m}, ones
+	base := ip.Mask(m)
+	if vr.Bool() {
+		// the same IPv4 prefix with its address held in the 16-byte form (what net.ParseIP returns)
+		base = base.To16()
+	}
+	return &net.IPNet{IP: base, Mask: m}, ones
 }
 
 // vhNLRI decodes one NLRI entry at b[pos:], checks it against the intended prefix, and returns the next position.
